@@ -56,24 +56,24 @@ theorem foldl_inv {σ : Type} (P : σ → Prop) (Q : Nat → Prop) (f : σ → N
 /-! ### the object counts as sums of weights -/
 
 def sessW (p : Proto) (x : Sess) : Nat := if (x.alive && x.proto == p) = true then 1 else 0
-def tcpW (t : Tun) : Nat := match t.st with | .connecting _ | .open _ _ => 1 | _ => 0
+def tcpW (t : Tun) : Nat := match t.st with | .connecting _ | .open _ _ _ => 1 | _ => 0
 def udpW (t : Tun) : Nat := match t.st with | .mux u => u.gauge | _ => 0
 
 @[simp] theorem tcpW_connecting (i n : Nat) : tcpW { sess := i, st := .connecting n } = 1 := rfl
-@[simp] theorem tcpW_open (i : Nat) (a b : Bool) : tcpW { sess := i, st := .open a b } = 1 := rfl
+@[simp] theorem tcpW_open (i : Nat) (a b d : Bool) : tcpW { sess := i, st := .open a b d } = 1 := rfl
 @[simp] theorem tcpW_mux (i : Nat) (u) : tcpW { sess := i, st := .mux u } = 0 := rfl
 @[simp] theorem tcpW_closed (i : Nat) : tcpW { sess := i, st := .closed } = 0 := rfl
 @[simp] theorem udpW_connecting (i n : Nat) : udpW { sess := i, st := .connecting n } = 0 := rfl
-@[simp] theorem udpW_open (i : Nat) (a b : Bool) : udpW { sess := i, st := .open a b } = 0 := rfl
+@[simp] theorem udpW_open (i : Nat) (a b d : Bool) : udpW { sess := i, st := .open a b d } = 0 := rfl
 @[simp] theorem udpW_mux (i : Nat) (u) : udpW { sess := i, st := .mux u } = u.gauge := rfl
 @[simp] theorem udpW_closed (i : Nat) : udpW { sess := i, st := .closed } = 0 := rfl
 
 theorem tcpW_of_connecting {t : Tun} {n} (h : t.st = .connecting n) : tcpW t = 1 := by simp [tcpW, h]
-theorem tcpW_of_open {t : Tun} {a b} (h : t.st = .open a b) : tcpW t = 1 := by simp [tcpW, h]
+theorem tcpW_of_open {t : Tun} {a b d} (h : t.st = .open a b d) : tcpW t = 1 := by simp [tcpW, h]
 theorem tcpW_of_mux {t : Tun} {u} (h : t.st = .mux u) : tcpW t = 0 := by simp [tcpW, h]
 theorem tcpW_of_closed {t : Tun} (h : t.st = .closed) : tcpW t = 0 := by simp [tcpW, h]
 theorem udpW_of_connecting {t : Tun} {n} (h : t.st = .connecting n) : udpW t = 0 := by simp [udpW, h]
-theorem udpW_of_open {t : Tun} {a b} (h : t.st = .open a b) : udpW t = 0 := by simp [udpW, h]
+theorem udpW_of_open {t : Tun} {a b d} (h : t.st = .open a b d) : udpW t = 0 := by simp [udpW, h]
 theorem udpW_of_mux {t : Tun} {u} (h : t.st = .mux u) : udpW t = u.gauge := by simp [udpW, h]
 theorem udpW_of_closed {t : Tun} (h : t.st = .closed) : udpW t = 0 := by simp [udpW, h]
 
@@ -174,7 +174,7 @@ theorem tun_lt_of_st_ne {s : St} {t : Nat} (h : (s.tuns.getD t default).st ≠ .
   apply h
   rw [getD_ge _ _ (Nat.le_of_not_lt hn)]; rfl
 
-theorem tun_lt_of_open {s : St} {t : Nat} {a b} (h : (s.tuns.getD t default).st = .open a b) :
+theorem tun_lt_of_open {s : St} {t : Nat} {a b d} (h : (s.tuns.getD t default).st = .open a b d) :
     t < s.tuns.length := tun_lt_of_st_ne (by rw [h]; simp)
 theorem tun_lt_of_mux {s : St} {t : Nat} {u} (h : (s.tuns.getD t default).st = .mux u) :
     t < s.tuns.length := tun_lt_of_st_ne (by rw [h]; simp)
@@ -231,7 +231,7 @@ theorem stepMux_eq_upd (c : Cfg) (s : St) (t u op) :
 theorem closeTun_of_connecting {s : St} {t n} (h : (s.tuns.getD t default).st = .connecting n) :
     closeTun s t = updTun s t .closed s.cells.tcpDec := by
   unfold closeTun; rw [h]; rfl
-theorem closeTun_of_open {s : St} {t a b} (h : (s.tuns.getD t default).st = .open a b) :
+theorem closeTun_of_open {s : St} {t a b d} (h : (s.tuns.getD t default).st = .open a b d) :
     closeTun s t = updTun s t .closed s.cells.tcpDec := by
   unfold closeTun; rw [h]; rfl
 theorem closeTun_of_mux {s : St} {t u} (h : (s.tuns.getD t default).st = .mux u) :
@@ -405,7 +405,7 @@ theorem Pres.of_closeTun (s : St) {t : Nat} (ht : t < s.tuns.length) : Pres s (c
   | connecting n =>
     rw [closeTun_of_connecting hst]
     apply Pres.upd ht <;> simp [tcpW_of_connecting hst, udpW_of_connecting hst] <;> omega
-  | «open» a b =>
+  | «open» a b d =>
     rw [closeTun_of_open hst]
     apply Pres.upd ht <;> simp [tcpW_of_open hst, udpW_of_open hst] <;> omega
   | mux u =>
@@ -414,8 +414,8 @@ theorem Pres.of_closeTun (s : St) {t : Nat} (ht : t < s.tuns.length) : Pres s (c
   | closed =>
     rw [closeTun_of_closed hst]; exact Pres.refl s
 
-theorem Pres.of_setOpen (s : St) {t : Nat} {a b : Bool} (h : (s.tuns.getD t default).st = .open a b)
-    (a' b' : Bool) : Pres s (setTun s t (.open a' b')) := by
+theorem Pres.of_setOpen (s : St) {t : Nat} {a b d : Bool} (h : (s.tuns.getD t default).st = .open a b d)
+    (a' b' d' : Bool) : Pres s (setTun s t (.open a' b' d')) := by
   rw [setTun_eq_upd]
   apply Pres.upd (tun_lt_of_open h) <;> simp [tcpW_of_open h, udpW_of_open h]
 
@@ -442,7 +442,8 @@ def goneBody (i : Nat) (s : St) (t : Nat) : St :=
   let tn := s.tuns.getD t default
   if tn.sess = i then
     match tn.st with
-    | .open ce _ => setTun s t (.open ce true)
+    | .open _ _ true => closeTun s t
+    | .open ce _ false => setTun s t (.open ce true false)
     | .mux _ => closeTun s t
     | _ => s
   else s
@@ -455,7 +456,8 @@ theorem Pres.of_goneBody (i : Nat) (s : St) (t : Nat) : Pres s (goneBody i s t) 
   simp only []
   split
   · split
-    · next ce o h => exact Pres.of_setOpen s h _ _
+    · next h => exact Pres.of_closeTun s (tun_lt_of_open h)
+    · next ce o h => exact Pres.of_setOpen s h _ _ _
     · next u h => exact Pres.of_closeTun s (tun_lt_of_mux h)
     · exact Pres.refl s
   · exact Pres.refl s
@@ -480,13 +482,16 @@ theorem goneBody_noMux (i : Nat) (s : St) (t : Nat) : NoMux i t (goneBody i s t)
   unfold goneBody at hu
   simp only [hs0, if_true] at hu
   split at hu
+  · next h =>
+    rw [closeTun_of_open h, updTun_getD, if_pos ⟨rfl, tun_lt_of_open h⟩] at hu
+    cases hu
   · next ce o h =>
     rw [setTun_getD_self _ _ _ (tun_lt_of_open h)] at hu
     cases hu
   · next u0 h =>
     rw [closeTun_of_mux h, updTun_getD, if_pos ⟨rfl, tun_lt_of_mux h⟩] at hu
     cases hu
-  · next h1 h2 => exact h2 u hu
+  · next h1 h2 h3 => exact h3 u hu
 
 theorem clientGone_noMux (s : St) (i j : Nat) : NoMux i j (clientGone s i) := by
   by_cases hj : j < s.tuns.length
@@ -611,7 +616,7 @@ def advBody (c : Cfg) (ms : Nat) (s : St) (t : Nat) : St :=
   match tn.st with
   | .connecting since =>
     if since + c.establish ≤ s.now then endIfH1 (closeTun s t) tn.sess else s
-  | .open _ _ =>
+  | .open _ _ _ =>
     if 2 * c.tcpIdle ≤ ms then endIfH1 (closeTun s t) tn.sess else s
   | .mux u => stepMux c s t u (.adv ms)
   | .closed => s
@@ -791,11 +796,15 @@ theorem step_ok (c : Cfg) (s : St) (op : Op) : StepOk s (step c s op) := by
         (Cells.addDn_dn1_le _ _ _) (Cells.addDn_dn2_le _ _ _)
     · next h => exact (Pres.of_closeTun s (tun_lt_of_open h)).ok
     · exact StepOk.refl s
+    · exact StepOk.refl s
   | tunClose t how =>
     simp only [step]
     split
     · split
-      · next h => exact ((Pres.of_closeTun s (tun_lt_of_open h)).trans (Pres.of_endIfH1 _ _)).ok
+      · next h =>
+        split
+        · exact ((Pres.of_closeTun s (tun_lt_of_open h)).trans (Pres.of_endIfH1 _ _)).ok
+        · exact (Pres.of_setOpen s h _ _ _).ok
       · exact StepOk.refl s
     · split
       · exact StepOk.refl s
@@ -803,13 +812,15 @@ theorem step_ok (c : Cfg) (s : St) (op : Op) : StepOk s (step c s op) := by
         · exact (Pres.of_endGone s _).ok
         · split
           · split
-            · next h => exact (Pres.of_setOpen s h _ _).ok
+            · next h => exact (Pres.of_closeTun s (tun_lt_of_open h)).ok
+            · next h => exact (Pres.of_setOpen s h _ _ _).ok
             · next h => exact (Pres.of_closeTun s (tun_lt_of_mux h)).ok
             · exact StepOk.refl s
           · split
             · next h => exact (Pres.of_closeTun s (tun_lt_of_open h)).ok
             · next h => exact (Pres.of_closeTun s (tun_lt_of_mux h)).ok
-            · next h => exact (Pres.of_setOpen s h _ _).ok
+            · next h => exact (Pres.of_closeTun s (tun_lt_of_open h)).ok
+            · next h => exact (Pres.of_setOpen s h _ _ _).ok
             · exact StepOk.refl s
   | udpUp t m n =>
     simp only [step]
@@ -902,7 +913,7 @@ theorem AllDead.udp_zero {s : St} (h : AllDead s) (hi : Inv2 noEx 0 s) : (s.tuns
     rw [h.not_alive] at this
     cases this
   | connecting n => exact udpW_of_connecting hst
-  | «open» a b => exact udpW_of_open hst
+  | «open» a b d => exact udpW_of_open hst
   | closed => exact udpW_of_closed hst
 
 theorem gone_sessions_udp_zero {s : St} (he : Eq4 s) (hi : Inv2 noEx 0 s) (h : AllDead s) :
@@ -916,7 +927,7 @@ theorem closeTun_getD_ne (s : St) (t : Nat) {j : Nat} (h : j ≠ t) :
     (closeTun s t).tuns.getD j default = s.tuns.getD j default := by
   cases hst : (s.tuns.getD t default).st with
   | connecting n => rw [closeTun_of_connecting hst, updTun_getD, if_neg (fun hh => h hh.1)]
-  | «open» a b => rw [closeTun_of_open hst, updTun_getD, if_neg (fun hh => h hh.1)]
+  | «open» a b d => rw [closeTun_of_open hst, updTun_getD, if_neg (fun hh => h hh.1)]
   | mux u => rw [closeTun_of_mux hst, updTun_getD, if_neg (fun hh => h hh.1)]
   | closed => rw [closeTun_of_closed hst]
 
@@ -924,7 +935,7 @@ theorem closeTun_tcpW_self (s : St) {t : Nat} (ht : t < s.tuns.length) :
     tcpW ((closeTun s t).tuns.getD t default) = 0 := by
   cases hst : (s.tuns.getD t default).st with
   | connecting n => rw [closeTun_of_connecting hst, updTun_getD, if_pos ⟨rfl, ht⟩]; rfl
-  | «open» a b => rw [closeTun_of_open hst, updTun_getD, if_pos ⟨rfl, ht⟩]; rfl
+  | «open» a b d => rw [closeTun_of_open hst, updTun_getD, if_pos ⟨rfl, ht⟩]; rfl
   | mux u => rw [closeTun_of_mux hst, updTun_getD, if_pos ⟨rfl, ht⟩]; rfl
   | closed => rw [closeTun_of_closed hst]; exact tcpW_of_closed hst
 
@@ -972,24 +983,30 @@ theorem adv_tcp_zero (c : Cfg) (ms : Nat) (s : St) (he : Eq4 s) (h2 : Inv2 noEx 
 
 /-! ### the TCP gauge through `clientGone` / `endIfH1` -/
 
-theorem goneBody_tcp (i : Nat) (s : St) (t : Nat) : (goneBody i s t).cells.tcp = s.cells.tcp := by
+theorem endIfH1_tcp_le (s : St) (i : Nat) : (endIfH1 s i).cells.tcp ≤ s.cells.tcp :=
+  (Pres.of_endIfH1 s i).fr.ctcp
+
+theorem foldl_fix {σ : Type} (f : σ → Nat → σ) (s : σ) (l : List Nat) (h : ∀ t ∈ l, f s t = s) :
+    l.foldl f s = s := by
+  induction l with
+  | nil => rfl
+  | cons t ts ih =>
+    simp only [List.foldl_cons]
+    rw [h t List.mem_cons_self]
+    exact ih (fun t' ht' => h t' (List.mem_cons_of_mem _ ht'))
+
+/-- a client none of whose tunnels holds anything leaves nothing to do -/
+theorem clientGone_of_closed (s : St) (i : Nat)
+    (h : ∀ j, j < s.tuns.length → (s.tuns.getD j default).sess = i → (s.tuns.getD j default).st = .closed) :
+    clientGone s i = s := by
+  rw [clientGone_eq]
+  apply foldl_fix
+  intro t ht
+  have ht' := List.mem_range.mp ht
   unfold goneBody
   simp only []
   split
-  · split
-    · rfl
-    · next u h => rw [closeTun_of_mux h]; rfl
-    · rfl
-  · rfl
-
-theorem clientGone_tcp (s : St) (i : Nat) : (clientGone s i).cells.tcp = s.cells.tcp := by
-  rw [clientGone_eq]
-  exact foldl_inv (fun s' => s'.cells.tcp = s.cells.tcp) (fun _ => True) (goneBody i)
-    (fun s' t _ h => (goneBody_tcp i s' t).trans h) _ (fun _ _ => trivial) s rfl
-
-theorem endIfH1_tcp (s : St) (i : Nat) : (endIfH1 s i).cells.tcp = s.cells.tcp := by
-  rw [endIfH1_eq]; split
-  · rw [clientGone_tcp, endSession_tcp]
+  · next hs => rw [h t ht' hs]
   · rfl
 
 theorem step_dead_tcp (c : Cfg) (s : St) (i : Nat) :
@@ -997,7 +1014,97 @@ theorem step_dead_tcp (c : Cfg) (s : St) (i : Nat) :
   simp only [step]
   split
   · rfl
-  · rw [endIfH1_tcp]
+  · next hcond =>
+    rw [endIfH1_eq]
+    split
+    · next hp =>
+      have hp' : protoOf s i = .h1 := hp
+      have hany : ∀ x ∈ s.tuns, ¬ x.sess = i := by
+        have := hcond
+        simp [hp'] at this
+        exact this.2
+      rw [clientGone_of_closed, endSession_tcp]
+      intro j hj hs
+      rw [endSession_tuns] at hj hs ⊢
+      simp only [List.length_append, List.length_cons, List.length_nil] at hj
+      by_cases hjl : j < s.tuns.length
+      · exfalso
+        rw [getD_append_left _ _ _ hjl] at hs
+        obtain ⟨x, hx⟩ : ∃ x, s.tuns.getD j default = x ∧ x ∈ s.tuns :=
+          ⟨s.tuns[j], by simp [List.getD_eq_getElem?_getD, hjl], List.getElem_mem hjl⟩
+        rw [hx.1] at hs
+        exact hany _ hx.2 hs
+      · have : j = s.tuns.length := by omega
+        subst this
+        rw [getD_append_last]
+    · rfl
+
+/-! ### an HTTP/2 tunnel through the two half-closes -/
+
+theorem closeTun_sess (s : St) (t : Nat) : (closeTun s t).sess = s.sess := by
+  unfold closeTun; split <;> rfl
+
+theorem endIfH1_of_h2 (s : St) (i : Nat) (h : protoOf s i = .h2) : endIfH1 s i = s := by
+  rw [endIfH1_eq, if_neg (by rw [h]; exact fun hh => nomatch hh)]
+
+theorem step_originClose_h2 (c : Cfg) (s : St) (t : Nat)
+    (h : (s.tuns.getD t default).st = .open false false false)
+    (hp : protoOf s (s.tuns.getD t default).sess = .h2) :
+    step c s (.tunClose t 's') = setTun s t (.open false false true) := by
+  simp only [step, if_true]
+  rw [h]
+  simp [hp]
+
+theorem step_originClose_h2_ended (c : Cfg) (s : St) (t : Nat) (o : Bool)
+    (h : (s.tuns.getD t default).st = .open true o false)
+    (hp : protoOf s (s.tuns.getD t default).sess = .h2) :
+    step c s (.tunClose t 's') = closeTun s t := by
+  simp only [step, if_true]
+  rw [h]
+  simp only [Bool.or_true, Bool.true_or, if_true]
+  exact endIfH1_of_h2 _ _ (by rw [protoOf_congr (closeTun_sess s t)]; exact hp)
+
+theorem step_clientEnd_h2 (c : Cfg) (s : St) (t : Nat) (ce o : Bool)
+    (h : (s.tuns.getD t default).st = .open ce o false)
+    (hp : protoOf s (s.tuns.getD t default).sess = .h2)
+    (ha : aliveS s (s.tuns.getD t default).sess = true) :
+    step c s (.tunClose t 'g') = setTun s t (.open true o false) := by
+  simp only [step]
+  rw [if_neg (by decide), ha, hp, h]
+  simp
+
+theorem step_clientEnd_h2_ended (c : Cfg) (s : St) (t : Nat) (ce o : Bool)
+    (h : (s.tuns.getD t default).st = .open ce o true)
+    (hp : protoOf s (s.tuns.getD t default).sess = .h2)
+    (ha : aliveS s (s.tuns.getD t default).sess = true) :
+    step c s (.tunClose t 'g') = closeTun s t := by
+  simp only [step]
+  rw [if_neg (by decide), ha, hp, h]
+  simp
+
+theorem half_close_both (c : Cfg) (s : St) (t : Nat)
+    (h : (s.tuns.getD t default).st = .open false false false)
+    (hp : protoOf s (s.tuns.getD t default).sess = .h2)
+    (ha : aliveS s (s.tuns.getD t default).sess = true)
+    (ht : t < s.tuns.length) :
+    (step c s (.tunClose t 's')).cells.tcp = s.cells.tcp ∧
+    (step c (step c s (.tunClose t 's')) (.tunClose t 'g')).cells.tcp = s.cells.tcp - 1 ∧
+    (step c (step c s (.tunClose t 'g')) (.tunClose t 's')).cells.tcp = s.cells.tcp - 1 := by
+  rw [step_originClose_h2 c s t h hp, step_clientEnd_h2 c s t _ _ h hp ha]
+  refine ⟨rfl, ?_, ?_⟩
+  · have e : ((setTun s t (.open false false true)).tuns.getD t default) =
+        { (s.tuns.getD t default) with st := .open false false true } := setTun_getD_self _ _ _ ht
+    have h' : ((setTun s t (.open false false true)).tuns.getD t default).st = .open false false true := by
+      rw [e]
+    rw [step_clientEnd_h2_ended c _ t _ _ h' (by rw [e]; exact hp) (by rw [e]; exact ha),
+      closeTun_of_open h']
+    rfl
+  · have e : ((setTun s t (.open true false false)).tuns.getD t default) =
+        { (s.tuns.getD t default) with st := .open true false false } := setTun_getD_self _ _ _ ht
+    have h' : ((setTun s t (.open true false false)).tuns.getD t default).st = .open true false false := by
+      rw [e]
+    rw [step_originClose_h2_ended c _ t _ h' (by rw [e]; exact hp), closeTun_of_open h']
+    rfl
 
 /-! ### a pending connect is left alone by everything but its own timeout -/
 
@@ -1015,6 +1122,7 @@ theorem goneBody_conn (i : Nat) (s : St) (t : Nat) {j n : Nat}
     simp only []
     split
     · split
+      · rw [closeTun_getD_ne _ _ hjt]; exact h
       · rw [setTun_getD_ne _ _ _ hjt]; exact h
       · rw [closeTun_getD_ne _ _ hjt]; exact h
       · exact h
@@ -1093,10 +1201,11 @@ theorem hang_released (c : Cfg) (s : St) (i ms : Nat) (ha : aliveS s i = true)
       (fun t => t ≠ s.tuns.length) (advBody c ms)
       (fun s' t ht h' => advBody_conn c ms s' (Ne.symm ht) h') (List.range s.tuns.length)
       (fun t ht => by have := List.mem_range.mp ht; omega) s1 hconn
-  rw [advBody_of_conn_due c ms s2 hconn2 (by rw [pr.fr.now, hnow]; omega), endIfH1_tcp,
-    closeTun_of_connecting hconn2]
+  rw [advBody_of_conn_due c ms s2 hconn2 (by rw [pr.fr.now, hnow]; omega)]
+  have h1 := endIfH1_tcp_le (closeTun s2 (s.tuns.length)) (s2.tuns.getD s.tuns.length default).sess
+  rw [closeTun_of_connecting hconn2] at h1 ⊢
   have := pr.fr.ctcp
-  simp only [updTun_cells, Cells.tcpDec_tcp]
+  simp only [updTun_cells, Cells.tcpDec_tcp] at h1
   omega
 
 theorem adv_allDead (c : Cfg) (ms : Nat) (s : St) (h : AllDead s) : AllDead (step c s (.adv ms)) := by
